@@ -186,3 +186,26 @@ pub proof fn lemma_peval_zero(c: Seq<FS>, x: FS, n: nat)
     ensures peval(c, x, n) == f_zero()
     decreases n
 { if n > 0 { lemma_peval_zero(c, x, (n - 1) as nat); lemma_mul_zero(f_pow(x, (n - 1) as nat)); ax_add_zero(f_zero()); } }
+// multiplying by X^k: the coefficient vector 0^k ++ c evaluates to x^k * c(x)
+pub proof fn lemma_peval_shift(z: Seq<FS>, c: Seq<FS>, x: FS, n: nat)
+    requires n <= c.len(), forall|i: int| 0 <= i < z.len() ==> z[i] == f_zero()
+    ensures peval(z + c, x, z.len() + n) == f_mul(f_pow(x, z.len()), peval(c, x, n))
+    decreases n
+{
+    let k = z.len(); let zc = z + c;
+    if n == 0 {
+        lemma_peval_ext(zc, z, x, k);
+        lemma_peval_zero(z, x, k);
+        lemma_mul_zero(f_pow(x, k));
+    } else {
+        lemma_peval_shift(z, c, x, (n - 1) as nat);
+        assert(zc[k + n - 1] == c[n - 1]);
+        lemma_pow_add(x, k, (n - 1) as nat);
+        let xk = f_pow(x, k); let xn = f_pow(x, (n - 1) as nat); let cn = c[n - 1]; let pn = peval(c, x, (n - 1) as nat);
+        // cn * (xk * xn) == xk * (cn * xn)
+        assert(f_mul(cn, f_mul(xk, xn)) == f_mul(xk, f_mul(cn, xn))) by {
+            ax_mul_assoc(cn, xk, xn); ax_mul_comm(cn, xk); ax_mul_assoc(xk, cn, xn);
+        }
+        ax_distrib(xk, pn, f_mul(cn, xn));
+    }
+}
